@@ -23,7 +23,7 @@ func init() {
 		Real:           []string{"resp.Write/writeBodyStream", "resp.chunkedBodyWriter", "ext.WriteBodyChunked/WriteBodyFixedSize/WriteChunk/WriteTrailer", "ResponseHeader.AppendBytes", "http1.Server.Serve (Connection decision)", "standard.Conn writer"},
 		Stub:           []string{"TCP (SimConn)", "peer (scripted actor)", "transporter accept loop (stub)", "clock (synctest)"},
 		Assumptions:    []string{"header values are token-safe (hostile bytes are C05's subject, not applicable here)", "documented exclusion honoured: the hijacked chunked writer is not installed on bodiless responses", "a handler-chosen 1xx status is treated as the final response of its request", "with the hijacked chunked writer the header block leaves before the server decides about Connection: the Connection-header oracle is not applied to those responses"},
-		RequiredProbes: []string{"mode-none", "mode-setbody", "mode-append", "mode-write", "mode-stream-n", "mode-stream-unknown", "mode-stream-limited", "mode-chunked-writer", "mode-abort-with-msg", "mode-reset-then-body", "flush-before-write", "bodiless-status", "head", "http10", "second-after-chunked", "backpressure", "trailers"},
+		RequiredProbes: []string{"mode-none", "mode-setbody", "mode-append", "mode-write", "mode-stream-n", "mode-stream-unknown", "mode-stream-limited", "mode-chunked-writer", "mode-abort-with-msg", "mode-reset-then-body", "flush-before-write", "bodiless-status", "head", "http10", "second-after-chunked", "backpressure", "trailers", "return-to-transport"},
 	}
 }
 
@@ -270,6 +270,10 @@ func genProg(tp *core.Tape, idx int, ep *core.Episode, method string) *respProg 
 func RunC04(ep *core.Episode) {
 	tp := ep.Tape
 	o := SrvOpts{BufSize: 4096}
+	o.ReturnToTransport = tp.Chance("returnmode", 1, 5)
+	if o.ReturnToTransport {
+		ep.Probe("return-to-transport")
+	}
 	nw := core.NewNet(ep)
 	srv := NewSrv(ep, nw, o)
 	n := 1 + tp.Weighted("nreq", []int{2, 3, 2, 1, 1})
